@@ -97,7 +97,7 @@ func profiles(prop string) []hist.Profile {
 			{Name: "retention", Ops: 110, Topics: 2, Subs: 4, POrdered: 0.2, PFilter: 0.2, PDL: 0.1, PRetry: 0.5,
 				Retentions: []time.Duration{10 * sec, 10 * min, 0, 31 * day}, TTLs: []time.Duration{min, day, 0, 365 * day},
 				Keys: []string{"", "k1"},
-				W:    weights(map[string]int{"publish": 22, "pull": 20, "pull-wait": 6, "pull-due": 6, "ack": 8, "jump": 16, "jump-long": 6, "expire-job": 10, "update-ttl": 4, "set-delay": 6, "seek-time": 3, "job": 6, "create-sub": 5})},
+				W:    weights(map[string]int{"publish": 22, "pull": 20, "pull-wait": 6, "pull-due": 6, "ack": 8, "jump": 16, "jump-long": 6, "expire-job": 10, "update-ttl": 4, "set-delay": 6, "seek-time": 5, "snapshot": 3, "seek-snapshot": 5, "job": 6, "create-sub": 5})},
 		}
 	case "C15":
 		return []hist.Profile{
